@@ -291,12 +291,29 @@ pub fn run(cfg: &Cfg) {
         } else if has_sha256 {
             sink.op(&op, &show(&res), true);
         } else if let Ok(Ok(m)) = &res {
-            // sha512 only: same key set as a sha256 run, digests checked against ring
+            // sha512 only: digests checked against ring. Without left-strip prefixes a key is the path of
+            // its file; with them the key no longer says where the file is (it may even name another
+            // existing file), so the digest must then be that of some file of the tree.
+            fn all_contents<'a>(n: &'a Node, out: &mut Vec<&'a Vec<u8>>) {
+                match n {
+                    Node::File(_, c) => out.push(c),
+                    Node::Dir(es) => es.iter().for_each(|e| all_contents(&e.1, out)),
+                    Node::Link(_) => {}
+                }
+            }
+            let mut contents = vec![];
+            all_contents(&tree, &mut contents);
+            let all512: Vec<String> = contents.iter().map(|c| hex(ring::digest::digest(&ring::digest::SHA512, c).as_ref())).collect();
             for (k, v) in m {
-                let content = std::fs::read(abs_root.join(k.value()));
-                if let (Ok(c), Some(h)) = (content, v.get(&in_toto::crypto::HashAlgorithm::Sha512)) {
-                    let want = hex(ring::digest::digest(&ring::digest::SHA512, &c).as_ref());
-                    sink.oracle(h.to_string() == want, "recorded sha512 digest is not the digest of the file", &op);
+                if let Some(h) = v.get(&in_toto::crypto::HashAlgorithm::Sha512) {
+                    if strips.is_none() {
+                        if let Ok(c) = std::fs::read(abs_root.join(k.value())) {
+                            let want = hex(ring::digest::digest(&ring::digest::SHA512, &c).as_ref());
+                            sink.oracle(h.to_string() == want, "recorded sha512 digest is not the digest of the file", &op);
+                        }
+                    } else {
+                        sink.oracle(all512.contains(&h.to_string()), "recorded sha512 digest is not the digest of any file of the tree", &op);
+                    }
                 }
             }
         }
